@@ -20,6 +20,14 @@ def _run(self):
         raise Boom(f'{type(self).__name__}:{self.name}')
     if self.mode == 'exit':
         raise SystemExit(3)
+    if self.mode in ('slow', 'slower'):
+        import time as _t
+        md = os.environ.get('C14_MARKS')
+        if md:
+            open(os.path.join(md, f'start-{self.name}'), 'w').close()
+        _t.sleep(0.3 if self.mode == 'slow' else 0.9)
+        if md:
+            open(os.path.join(md, f'end-{self.name}'), 'w').close()
     if self.mode == 'ignore':
         return (type(self).__name__, self.name, 'ignored-deps')
     return (type(self).__name__, self.name, tuple(d.result for d in self.deps))
